@@ -1,7 +1,7 @@
 (** C35 — interface between the sketch-level proofs ([Proofs/C35_regs_*.v]) and the
     bit-level / codec lemmas ([Proofs/C35_bits.v], [Proofs/C35_codec.v], proved separately).
 
-    [iface] is a record of PROPOSITIONS (not an axiom): every sketch-level lemma takes an
+    [iface] is a record of PROPOSITIONS (nothing is postulated): every sketch-level lemma takes an
     [I : iface] explicitly; a later file builds the record from the real lemmas.
     Field [i_foo] is the hypothesis [foo] of the task statement, verbatim. *)
 From Verif Require Import Base.Prelude Model.C35.
